@@ -1,6 +1,6 @@
 (* C14/Property.v — property C14 (stored configuration images), theorems only.
    Each is closed by `exact <lemma>` and followed by Print Assumptions. *)
-From CF Require Import Common.Bytes C14.Model C14.Model_lh C14.Model_misc C14.Proofs_i2c C14.Proofs_ow C14.Proofs_lh C14.Proofs_misc C14.Model_hist C14.Proofs_hist.
+From CF Require Import Common.Bytes C14.Model C14.Model_lh C14.Model_misc C14.Proofs_i2c C14.Proofs_ow C14.Proofs_lh C14.Proofs_misc C14.Model_hist C14.Proofs_hist C14.Model_seq C14.Proofs_seq.
 Open Scope Z_scope.
 
 (* ------------------------------------------------------------------ EEPROM radio configuration *)
@@ -354,3 +354,81 @@ Theorem C14_layout_compressed_trajectory : forall segs img rest, traj_image (map
   csegs_read (length segs) (img ++ rest) = (segs, rest).
 Proof. exact csegs_layout. Qed.
 Print Assumptions C14_layout_compressed_trajectory.
+
+(* ------------------------------------------------------------------ the sequencing layer over the images
+   LighthouseMemory (one request at a time), LighthouseMemHelper (_ObjectReader / _ObjectWriter) and
+   LighthouseConfigWriter as state machines over the memory-level events; the device accepts the write of
+   (kind, id) iff wok kind id and acknowledges the persist request with the result flag pok.  Objects are their
+   memory images (round trip and layout: the C14_lh theorems above). *)
+
+(* write_and_store_config on a writer with nothing armed, for EVERY choice of geos / calibs (None, or any
+   dictionary: any ids, any order, sparse), system type, nr_of_base_stations <= 16, every set of failing writes and
+   either persist result flag.  The whole conversation is: [system type] ; the geometries of the prepared dictionary
+   (given entries in their order, then the empty object for every missing id below nr) one after the other ; the
+   calibrations likewise ; one persist request for all ids below nr (also after failed writes) ; then, on ANY
+   acknowledgement, data_stored_cb exactly once with success = no WRITE failed (the result flag of the
+   acknowledgement does not enter: pok does not occur on the right-hand side).  Afterwards nothing is armed and
+   nothing is left to do: a second call starts from the same precondition. *)
+Theorem C14_config_writer_sequence : forall wok pok s g c st nr extra,
+  c_armed s = false -> quiet s -> (nr <= 16)%nat ->
+  let pg := option_map (prepare nr empty_geo_img) g in
+  let pc := option_map (prepare nr empty_calib_img) c in
+  (match pg with Some l => l <> [] | None => True end) ->
+  (match pc with Some l => l <> [] | None => True end) ->
+  let '(s1, a1) := handle s (EStart g c st nr) in
+  let '(s2, tr) := drive (olen pg + (olen pc + (1 + extra))) wok pok s1 a1 in
+  a1 ++ tr =
+    match st with Some v => [ASetParam v] | None => [] end ++ opt_writes KGeo pg ++ opt_writes KCalib pc ++
+    (if persisted g c nr then [APersist (fst (persist_lists g c nr)) (snd (persist_lists g c nr))] else []) ++
+    [ACallback (cw_success wok pg pc)] /\
+  c_armed s2 = false /\ quiet s2 /\ c_geos s2 = None /\ c_calibs s2 = None /\ c_gp s2 = [] /\ c_cp s2 = [] /\
+  c_failed s2 = negb (cw_success wok pg pc).
+Proof. exact config_writer_run. Qed.
+Print Assumptions C14_config_writer_sequence.
+
+(* what reaches the device memory during that conversation: exactly the accepted entries of the two prepared
+   dictionaries (each entry is the image of C14_layout_lh_geo / C14_layout_lh_calib), in order, and nothing else *)
+Theorem C14_config_writer_device_memory : forall wok (st : option Z) (pg pc : option objs) (pers : bool) (plists : list Z * list Z),
+  apply_writes wok (setparam st ++ opt_writes KGeo pg ++ opt_writes KCalib pc ++
+                    (if pers then [APersist (fst plists) (snd plists)] else []) ++ [ACallback (cw_success wok pg pc)]) =
+  match pg with Some l => good wok KGeo l | None => [] end ++ match pc with Some l => good wok KCalib l | None => [] end.
+Proof. exact config_writer_device. Qed.
+Print Assumptions C14_config_writer_device_memory.
+
+(* success implies that every entry of both prepared dictionaries was accepted by the device: the memory then holds
+   exactly the requested objects, padded with the empty object *)
+Theorem C14_config_writer_success_means_all_written : forall wok pg pc, cw_success wok pg pc = true ->
+  (match pg with Some l => good wok KGeo l = map (fun kv => (KGeo, fst kv, snd kv)) l | None => True end) /\
+  (match pc with Some l => good wok KCalib l = map (fun kv => (KCalib, fst kv, snd kv)) l | None => True end).
+Proof. exact config_writer_success_all. Qed.
+Print Assumptions C14_config_writer_success_means_all_written.
+
+(* observation, outside the property text: one geometry written, the firmware answers the persist request with
+   result flag 0, and the completion value is still True *)
+Theorem C14_persist_flag_ignored_observation :
+  cw_trace cws_idle [EStart (Some [(0, empty_geo_img)]) None None 1%nat; EWriteDone; EAck false] =
+  [[AWrite KGeo 0 empty_geo_img]; [APersist [0] []]; [ACallback true]].
+Proof. exact persist_flag_ignored. Qed.
+Print Assumptions C14_persist_flag_ignored_observation.
+
+(* guards: reports of the memory layer with nothing armed are ignored; a second write_and_store_config while one
+   is running raises and changes nothing; a persist acknowledgement on an idle writer does nothing *)
+Theorem C14_config_writer_guards :
+  (forall s, m_w s = None -> handle s EWriteDone = (s, []) /\ handle s EWriteFailed = (s, [])) /\
+  (forall s g c st nr, c_armed s = true -> handle s (EStart g c st nr) = (s, [ARaise 1])) /\
+  (forall s ok, c_armed s = false -> c_geos s = None -> c_calibs s = None -> c_gp s = [] -> c_cp s = [] ->
+                snd (handle s (EAck ok)) = []).
+Proof. exact (conj stray_write_events_ignored (conj start_while_running stray_ack_when_idle)). Qed.
+Print Assumptions C14_config_writer_guards.
+
+(* read_all_geos / read_all_calibs on a quiet helper, for every device (any subset of the 16 reads failing, any
+   images): the 16 stations are read one after the other, then the callback comes exactly once with exactly the
+   stations that answered, each decoded from its image (valid flag included); everything is disarmed afterwards *)
+Theorem C14_read_all_sequence : forall k devr,
+  (forall id d, devr id = Some d -> lh_new_data (page_addr k id) d <> LStructError) ->
+  forall extra,
+  let '(s1, a1) := rhandle k rds_idle RStart in
+  let '(s2, tr) := rdrive (16 + extra) k devr s1 a1 in
+  a1 ++ tr = map (RRead k) (zseq 0 16) ++ [RCallback (read_all_expected k devr (zseq 0 16))] /\ s2 = rds_idle.
+Proof. exact read_all_closed_form. Qed.
+Print Assumptions C14_read_all_sequence.
